@@ -212,7 +212,7 @@ func (rn *c07run) compile(i int, chanCap int) (*Compiled, *Violation) {
 }
 
 // exec performs one scripted call against exprs (shared or private).
-func (rn *c07run) exec(exprs []*Compiled, s Step, yield func(kind, name string), depth int) *Outcome {
+func (rn *c07run) exec(exprs []*Compiled, s Step, yield func(kind, name string), depth int, isolated bool) *Outcome {
 	c := exprs[s.Expr%len(exprs)]
 	var env *Env
 	if s.Plan != nil {
@@ -233,12 +233,20 @@ func (rn *c07run) exec(exprs []*Compiled, s Step, yield func(kind, name string),
 			if s.Op == "tryeval" {
 				ikind = "tryeval"
 			}
+			ienv := NewEnv(rn.ops, &Plan{Kind: ikind, Bind: s.Plan.Bind, Unavail: s.Plan.Unavail, Clock: s.Plan.Clock})
+			ienv.Yield = yield
 			var o Outcome
-			if s.Plan.Clock%2 == 0 {
-				o = next.RunCtx(ctx, env, ikind)
+			if s.Plan.Clock%2 == 0 && !isolated {
+				// same Ctx object, its fetcher pointed at the inner call's Env for
+				// the duration. The isolated baseline never does this: there the
+				// inner call gets a Ctx of its own, so outer and inner cannot
+				// interfere and the baseline shows what re-entrancy must not change.
+				f := ctx.VariableFetcher.(*SimFetcher)
+				outer := f.E
+				f.E = ienv
+				o = next.RunCtx(ctx, ienv, ikind)
+				f.E = outer
 			} else {
-				ienv := NewEnv(rn.ops, &Plan{Kind: ikind, Bind: s.Plan.Bind, Unavail: s.Plan.Unavail, Clock: s.Plan.Clock})
-				ienv.Yield = yield
 				o = next.RunEnv(ienv, ikind)
 			}
 			return int64(hash64(o.Class()+ValStr(o.Val)) % 1000)
@@ -278,7 +286,7 @@ func (pr propC07) Run(w *World, st *Stats) *Violation {
 				priv[i] = c
 			}
 			st.Evals += int64(len(priv))
-			o := rn.exec(priv, s, nil, 0)
+			o := rn.exec(priv, s, nil, 0, true)
 			st.Evals++
 			ncalls++
 			if o.Panic != nil && !o.Abort {
@@ -326,7 +334,7 @@ func (pr propC07) Run(w *World, st *Stats) *Violation {
 		}
 		for ti, script := range w.Tasks {
 			for ci, s := range script {
-				o := rn.exec(rn.shared, s, nil, 0)
+				o := rn.exec(rn.shared, s, nil, 0, false)
 				st.Evals++
 				st.Steps += int64(o.Env.N)
 				results[ti] = append(results[ti], o)
@@ -371,7 +379,7 @@ func (pr propC07) Run(w *World, st *Stats) *Violation {
 			}
 		}
 		b.Exec = func(task, call int, s Step, yield func(kind, name string)) *Outcome {
-			return rn.exec(rn.shared, s, yield, 0)
+			return rn.exec(rn.shared, s, yield, 0, false)
 		}
 		b.AfterStep = func(b *Bubble) *Violation {
 			if sv != nil {
@@ -432,7 +440,7 @@ func (pr propC07) Run(w *World, st *Stats) *Violation {
 		perTask := make([][]*Outcome, len(w.Tasks))
 		taken := RunBaton(len(w.Tasks), seed, useRng, pSwitch, pAbandon, w.Sched, func(task int, yield func(kind, name string)) {
 			for _, s := range w.Tasks[task] {
-				o := rn.exec(rn.shared, s, yield, 0)
+				o := rn.exec(rn.shared, s, yield, 0, false)
 				perTask[task] = append(perTask[task], o)
 				if batonKilled(int32(task)) {
 					break // abandoned inside this call
